@@ -1,5 +1,5 @@
 """C03 — bit-cursor reads (RawPacketData.read_as_int / read_as_bytes / _extract_bits)."""
-from harness.core import hx, unhx, parse_sx
+from harness.core import hx, unhx, parse_sx, sx
 
 ID = "C03"
 REQUIRED_THEOREMS = ["read_as_int", "read_as_bytes", "field_arith", "buffer_unchanged_int",
@@ -13,6 +13,8 @@ MODEL_IS_SPEC = False
 
 
 def is_trivial(line, mo):
+    if line.startswith("rseq"):
+        return False
     t = line.split()
     return t[1] == "x" or t[3] == "0"
 
@@ -55,14 +57,65 @@ def generate(rng, tier):
             else:
                 n = min(n, 16384)
             yield f"{op} {hx(buf)} {p} {n}", "big"
+    yield from gen_sequences(rng, tier)
+
+
+def gen_sequences(rng, tier):
+    """Histories of reads on ONE buffer object: each read's result depends on the cursor and the bytes only, never on
+    what was read before (no state besides `pos`)."""
+    for _ in range(150 if tier == "quick" else 20000):
+        ln = rng.randrange(1, 24)
+        buf = rng.randbytes(ln)
+        p = rng.choice([0, 0, 0, rng.randrange(0, 8 * ln)])
+        ops = []
+        for _ in range(rng.randrange(2, 9)):
+            k = rng.choice("ib")
+            n = rng.choice([0, 1, 3, 5, 7, 8, 8, 16, 16, 24, 32, rng.randrange(0, 40)])
+            ops.append([k, str(n)])
+        yield f"rseq {hx(buf)} {p} {sx(ops)}", "read-history"
 
 
 def same(r, buf):
     return "same" if bytes(r) == buf and len(r) == len(buf) else "changed"
 
 
+def impl_seq(line):
+    from space_packet_parser import packets
+    t = parse_sx(line)
+    buf = unhx(t[1])
+    r = packets.RawPacketData(buf)
+    r.pos = int(t[2])
+    out = "seq"
+    for k, n in t[3]:
+        try:
+            if k == "i":
+                out += f" {r.read_as_int(int(n))}"
+            else:
+                out += f" {hx(bytes(r.read_as_bytes(int(n))))}"
+        except ValueError:
+            return out + " err"
+    return out + f" end {r.pos} {same(r, buf)}"
+
+
+def oracle_seq(line, out):
+    t = parse_sx(line)
+    buf = unhx(t[1]); p = int(t[2])
+    bits = "".join(f"{b:08b}" for b in buf)
+    want = "seq"
+    for k, n in t[3]:
+        n = int(n)
+        if p + n > len(bits):
+            return None if k == "i" else (out == want + " err")    # only bytes reads are guarded; int over-reads are C14's
+        v = int(bits[p:p + n] or "0", 2)
+        want += f" {v}" if k == "i" else f" {hx(v.to_bytes((n + 7) // 8, 'big'))}"
+        p += n
+    return out == want + f" end {p} same"
+
+
 def impl(line):
     from space_packet_parser import packets
+    if line.startswith("rseq"):
+        return impl_seq(line)
     op, d, p, n = line.split()
     buf = unhx(d); p = int(p); n = int(n)
     if op == "xbits":
@@ -78,12 +131,16 @@ def impl(line):
 
 
 def in_domain(line):
+    if line.startswith("rseq"):
+        return True
     op, d, p, n = line.split()
     return int(n) >= 0 and int(p) + int(n) <= 4 * (len(d) - 1)
 
 
 def oracle(line, out):
     """Independent evaluation of the property with Python string operations."""
+    if line.startswith("rseq"):
+        return oracle_seq(line, out)
     op, d, p, n = line.split()
     buf = unhx(d); p = int(p); n = int(n)
     if not in_domain(line):
@@ -98,6 +155,8 @@ def oracle(line, out):
 
 
 def shrink(line, still):
+    if line.startswith("rseq"):
+        return line
     op, d, p, n = line.split()
     buf = unhx(d); p = int(p); n = int(n)
     changed = True
